@@ -63,11 +63,12 @@ deriving DecidableEq, Repr, Inhabited
 
 def ids (l : List Chan) : List Nat := l.map (·.id)
 
-/-- `ChanListData::swap_remove` on the visible slice: `self[i] = self[len-1]; len -= 1` -/
+/-- `ChanListData::swap_remove` on the visible slice: `self[i] = self[len-1]; len -= 1`
+(for the last index: plain truncation) -/
 def swapRemove (l : List Chan) (i : Nat) : List Chan :=
-  match l.getLast? with
-  | none => l
-  | some z => (l.set i z).dropLast
+  match (l.drop (i + 1)).getLast? with
+  | none => l.take i
+  | some z => l.take i ++ z :: (l.drop (i + 1)).dropLast
 
 /-- `ChanDirection::matches(op)`: `dir & op != 0` with op 1 = Seal, 2 = Open, 3 = Any -/
 def dirMatches (dir op : Nat) : Bool := (dir == 1 && (op == 1 || op == 3)) || (dir == 2 && (op == 2 || op == 3))
@@ -281,6 +282,15 @@ def State.setSide (s : State) (x : Bool) (sd : Side) : State :=
 def State.setHolder (s : State) (x : Bool) (h : Option Nat) : State :=
   if x then { s with hb := h } else { s with ha := h }
 
+def State.setW (s : State) (pc : WPc) : State := { s with w := pc }
+def State.setHist (s : State) (h : List (List Chan)) : State := { s with hist := h }
+def State.setRO (s : State) (x : Bool) : State := { s with readOff := x }
+def State.setWO (s : State) (x : Bool) : State := { s with writeOff := x }
+def State.setNextId (s : State) (n : Nat) : State := { s with nextId := n }
+def State.setCorrupt (s : State) : State := { s with corrupt := true }
+def State.setDead (s : State) (d : List Nat) : State := { s with dead := d }
+def State.setRs (s : State) (rs : List Reader) : State := { s with rs := rs }
+
 /-- the channel sequence the operation produces (ghost), appended to `hist` when the program
 bumps the generation -/
 def histAfter (cap : Nat) (hist : List (List Chan)) (prog : List MOp) (sd : Side) : List (List Chan) :=
@@ -325,46 +335,52 @@ def removedIds (hist : List (List Chan)) (g0 : Nat) (cur : List Chan) : List Nat
   | some pre => (ids pre).filter (fun x => !(ids cur).contains x)
   | none => []
 
+/-- `lock` of the first side succeeded: plan the operation -/
+def lock1 (s : State) (op : WOp) (w : Bool) : State :=
+  let pl := plan s.cap op (s.side w)
+  ((s.setHolder w (some 0)).setHist (histAfter s.cap s.hist pl.1 (s.side w))).setW
+    (.mu1 w pl.1 pl.2.1 pl.2.2 (s.side w).gen)
+
+/-- a micro operation on the held side `x`; `ok` / `bad` = the next control state -/
+def muStep (s : State) (x : Bool) (m : MOp) (ok bad : WPc) : State :=
+  match applyM s.cap m (s.side x) with
+  | some sd' => (s.setSide x sd').setW ok
+  | none => s.setCorrupt.setW bad
+
+/-- unlock of the first side -/
+def unlock1 (s : State) (w : Bool) (nx : Option Prog2) (ret : Ret) (g0 : Nat) : State × Option Ret :=
+  match nx with
+  | none => ((s.setHolder w none).setW .idle, some ret)
+  | some p2 => ((s.setHolder w none).setW (.sw w p2 ret g0), none)
+
+def swapOff (s : State) (w : Bool) (p2 : Prog2) (ret : Ret) (g0 : Nat) : State :=
+  (s.setRO w).setW (.lk2 s.readOff p2 ret g0)
+
+def lock2 (s : State) (r : Bool) (p2 : Prog2) (ret : Ret) (g0 : Nat) : State :=
+  (s.setHolder r (some 0)).setW (.mu2 r (p2.expand (s.side r).chans) ret g0)
+
+def storeOff (s : State) (r : Bool) (g0 : Nat) : State :=
+  ((s.setWO r).setDead (s.dead ++ removedIds s.hist g0 (s.side r).chans)).setW .idle
+
 /-- one step of the writer: new state and the result if the operation returns -/
 def wStep (s : State) : Option (State × Option Ret) :=
   match s.w with
   | .idle => none
-  | .nid d p => some ({ s with nextId := s.nextId + 1, w := .ldW (.add ⟨s.nextId, d, p⟩) }, none)
-  | .ldW op => some ({ s with w := .lk1 op s.writeOff }, none)
-  | .lk1 op w =>
-    if s.holder w ≠ none then none
-    else
-      let sd := s.side w
-      let (prog, nx, ret) := plan s.cap op sd
-      let s1 := s.setHolder w (some 0)
-      some ({ s1 with w := .mu1 w prog nx ret sd.gen, hist := histAfter s.cap s.hist prog sd }, none)
+  | .nid d p => some ((s.setNextId (s.nextId + 1)).setW (.ldW (.add ⟨s.nextId, d, p⟩)), none)
+  | .ldW op => some (s.setW (.lk1 op s.writeOff), none)
+  | .lk1 op w => if s.holder w ≠ none then none else some (lock1 s op w, none)
   | .mu1 w (m :: rest) nx ret g0 =>
-    match applyM s.cap m (s.side w) with
-    | some sd' => some ({ s.setSide w sd' with w := .mu1 w rest nx ret g0 }, none)
-    | none => some ({ s with corrupt := true, w := .mu1 w [] none ret g0 }, none)
-  | .mu1 w [] nx ret g0 =>
-    let s1 := s.setHolder w none
-    match nx with
-    | none => some ({ s1 with w := .idle }, some ret)
-    | some p2 => some ({ s1 with w := .sw w p2 ret g0 }, none)
-  | .sw w p2 ret g0 => some ({ s with readOff := w, w := .lk2 s.readOff p2 ret g0 }, none)
-  | .lk2 r p2 ret g0 =>
-    if s.holder r ≠ none then none
-    else
-      let s1 := s.setHolder r (some 0)
-      some ({ s1 with w := .mu2 r (p2.expand (s.side r).chans) ret g0 }, none)
-  | .mu2 r (m :: rest) ret g0 =>
-    match applyM s.cap m (s.side r) with
-    | some sd' => some ({ s.setSide r sd' with w := .mu2 r rest ret g0 }, none)
-    | none => some ({ s with corrupt := true, w := .mu2 r [] ret g0 }, none)
-  | .mu2 r [] ret g0 => some ({ s.setHolder r none with w := .st r ret g0 }, none)
-  | .st r ret g0 =>
-    some ({ s with writeOff := r, w := .idle,
-                   dead := s.dead ++ removedIds s.hist g0 (s.side r).chans }, some ret)
+    some (muStep s w m (.mu1 w rest nx ret g0) (.mu1 w [] none ret g0), none)
+  | .mu1 w [] nx ret g0 => some (unlock1 s w nx ret g0)
+  | .sw w p2 ret g0 => some (swapOff s w p2 ret g0, none)
+  | .lk2 r p2 ret g0 => if s.holder r ≠ none then none else some (lock2 s r p2 ret g0, none)
+  | .mu2 r (m :: rest) ret g0 => some (muStep s r m (.mu2 r rest ret g0) (.mu2 r [] ret g0), none)
+  | .mu2 r [] ret g0 => some ((s.setHolder r none).setW (.st r ret g0), none)
+  | .st r ret g0 => some (storeOff s r g0, some ret)
 
 def wBegin (s : State) (rq : WReq) : Option State :=
   match s.w with
-  | .idle => some { s with w := rq.begin }
+  | .idle => some (s.setW rq.begin)
   | _ => none
 
 /-- a fresh context for channel `ch` found at `idx` in a list of generation `g` -/
@@ -384,30 +400,33 @@ inductive LockEff where
   | acq (s : Bool)
   | rel (s : Bool)
 
+/-- ghost: the operation's target id is already dead when it begins -/
+def deadAtBegin (dead : List Nat) (ctxs : List Ctx) (op : ROp) : Bool :=
+  match op.target ctxs with
+  | some x => dead.contains x
+  | none => false
+
 /-- A reader starts an operation.  `seal`/`open` on an expired context return at once. -/
 def rBeginLocal (dead : List Nat) (r : Reader) (op : ROp) : Option (Reader × Option Ret) :=
   match r.pc with
   | .idle =>
-    let d0 := match op.target r.ctxs with
-      | some x => dead.contains x
-      | none => false
     match op with
-    | .setup _ _ => some ({ r with pc := .ldR op, dead0 := d0 }, none)
-    | .exists_ _ => some ({ r with pc := .ldR op, dead0 := d0 }, none)
+    | .setup _ _ => some ({ r with pc := .ldR op, dead0 := deadAtBegin dead r.ctxs op }, none)
+    | .exists_ _ => some ({ r with pc := .ldR op, dead0 := deadAtBegin dead r.ctxs op }, none)
     | .seal k _ =>
       match r.ctxs[k]? with
       | none => none
       | some c =>
         if c.isSeal = false then none
-        else if c.live = false then some ({ r with dead0 := d0 }, some .keyExpired)
-        else some ({ r with pc := .ldR op, dead0 := d0 }, none)
+        else if c.live = false then some ({ r with dead0 := deadAtBegin dead r.ctxs op }, some .keyExpired)
+        else some ({ r with pc := .ldR op, dead0 := deadAtBegin dead r.ctxs op }, none)
     | .open_ k _ =>
       match r.ctxs[k]? with
       | none => none
       | some c =>
         if c.isSeal = true then none
-        else if c.live = false then some ({ r with dead0 := d0 }, some .keyExpired)
-        else some ({ r with pc := .ldR op, dead0 := d0 }, none)
+        else if c.live = false then some ({ r with dead0 := deadAtBegin dead r.ctxs op }, some .keyExpired)
+        else some ({ r with pc := .ldR op, dead0 := deadAtBegin dead r.ctxs op }, none)
   | _ => none
 
 /-- successful seal with the context's key: returns `seq`, the key advances -/
@@ -460,25 +479,24 @@ def rStepLocal (readOff : Bool) (side : Bool → Side) (free : Bool → Bool) (r
             if fail then some ({ r with pc := .ul s .fErr }, .acq s, none)
             else some ({ r with pc := .glo k s ch idx }, .acq s, none)
   | .gl op s =>
-    let sd := side s
     match op with
     | .setup isSeal x =>
-      match find sd.chans x none (if isSeal then 1 else 2) with
+      match find (side s).chans x none (if isSeal then 1 else 2) with
       | none => some ({ r with pc := .ul s .notFound }, .none, none)
       | some (ch, idx) =>
-        some ({ r with pc := .ul s (.ctx r.ctxs.length), ctxs := r.ctxs ++ [newCtx isSeal ch sd.gen idx] },
+        some ({ r with pc := .ul s (.ctx r.ctxs.length), ctxs := r.ctxs ++ [newCtx isSeal ch (side s).gen idx] },
               .none, none)
     | .seal k fail =>
       match r.ctxs[k]? with
       | none => none
       | some c =>
-        match find sd.chans c.id (some c.idx) 1 with
+        match find (side s).chans c.id (some c.idx) 1 with
         | none => some ({ r with pc := .ul s .notFound, ctxs := r.ctxs.set k { c with live := false } }, .none, none)
         | some (ch, idx) =>
           if fail then some ({ r with pc := .ul s .fErr }, .none, none)
           else
             some ({ r with pc := .ul s (.sealed c.seq),
-                           ctxs := r.ctxs.set k { c.sealed with ch := ch, gen := sd.gen, idx := idx } },
+                           ctxs := r.ctxs.set k { c.sealed with ch := ch, gen := (side s).gen, idx := idx } },
                   .none, none)
     | _ => none
   | .glo k s ch idx =>
@@ -500,7 +518,7 @@ def rBegin (s : State) (i : Nat) (op : ROp) : Option (State × Option Ret) :=
   | some r =>
     match rBeginLocal s.dead r op with
     | none => none
-    | some (r', ret) => some ({ s with rs := s.rs.set i r' }, ret)
+    | some (r', ret) => some (s.setRs (s.rs.set i r'), ret)
 
 def rStep (s : State) (i : Nat) : Option (State × Option Ret) :=
   match s.rs[i]? with
@@ -508,7 +526,7 @@ def rStep (s : State) (i : Nat) : Option (State × Option Ret) :=
   | some r =>
     match rStepLocal s.readOff s.side (fun x => (s.holder x).isNone) r with
     | none => none
-    | some (r', eff, ret) => some (applyLock { s with rs := s.rs.set i r' } i eff, ret)
+    | some (r', eff, ret) => some (applyLock (s.setRs (s.rs.set i r')) i eff, ret)
 
 /-- schedules are lists of these -/
 inductive Act where
